@@ -17,13 +17,23 @@ def main():
         d = os.path.join(ROOT, sid)
         meta = json.load(open(os.path.join(d, "meta.json")))
         readme = open(os.path.join(d, "README.txt")).read()
-        m = re.search(r"cp \S+/(\S+\.rs) (crates/\S+/tests/)", readme)
-        demo, dest = m.group(1), m.group(2)
+        m = re.search(r"cp \S+/(\S+\.rs) (crates/\S+/tests/)", readme) or re.search(r"cp -r .*?/(c\d\d_demo\.rs) .*?(crates/\S+/tests/)", readme)
+        if m:
+            demo, dest = m.group(1), m.group(2)
+        else:
+            # a single demonstration file, and the README names the tests directory it goes to
+            rs = [f for f in os.listdir(d) if f.endswith(".rs")]
+            m2 = re.search(r"(crates/[\w-]+/tests)/?", readme)
+            assert len(rs) == 1 and m2, (sid, rs)
+            demo, dest = rs[0], m2.group(1) + "/"
         crate = dest.split("/")[1]
         test = demo[:-3]
         sh("git checkout -- . && git clean -fdq")
         os.makedirs(os.path.join(WT, dest), exist_ok=True)
         shutil.copy(os.path.join(d, demo), os.path.join(WT, dest, demo))
+        for sub in os.listdir(d):                      # helper modules of the demonstration
+            if os.path.isdir(os.path.join(d, sub)):
+                shutil.copytree(os.path.join(d, sub), os.path.join(WT, dest, sub), dirs_exist_ok=True)
         rc0, out0 = sh("cargo test -p %s --offline --test %s 2>&1 | tail -15" % (crate, test))
         ok_without = "test result: ok" in out0
         rc, out = sh("git apply %s" % os.path.join(d, "patch.diff"))
@@ -31,6 +41,11 @@ def main():
         rc1, out1 = sh("cargo test -p %s --offline --test %s 2>&1 | tail -15" % (crate, test))
         fails_with = "test result: FAILED" in out1
         os.remove(os.path.join(WT, dest, demo))
+        for sub in os.listdir(d):
+            if os.path.isdir(os.path.join(d, sub)):
+                shutil.rmtree(os.path.join(WT, dest, sub), ignore_errors=True)
+        # it_aws::test_list_buckets shares one directory under the target dir with the other tests: leftovers of an aborted run make it fail
+        shutil.rmtree("/tmp/confirm/target/tmp", ignore_errors=True)
         rc2, out2 = sh("cargo test --workspace --offline --lib --bins --tests --exclude s3s-e2e --exclude s3s-proxy 2>&1 | grep -E 'test result|FAILED|failed' ")
         passed = sum(int(x) for x in re.findall(r"(\d+) passed", out2)); failed = sum(int(x) for x in re.findall(r"(\d+) failed", out2))
         sh("git checkout -- . && git clean -fdq")
